@@ -45,6 +45,8 @@ open Spl Spl.Feat Spl.Typing Spl.TypingSound Spl.ScopeExact
     the model of `Display for DataType` -/
 def tyStr (t : Ty) : List Char := dataTypeStr (conv t)
 
+/- non-vacuity of the hypothesis `wellTyped p = true`: the kernel-evaluated examples of Props/C03.lean (`specVerdict … = some true`
+   for a program with a type declaration, a procedure with reference and value parameters and `main`). -/
 /-- **Hover tells the truth about types and about the types of variables and parameters.**  For every program the typing
     specification accepts, with the table `build` returns: the entry found under a declared type name renders as that
     type FULLY RESOLVED by the specification (aliases followed to `int` / `array [n] of …`), and every entry of a
